@@ -342,7 +342,7 @@ func TestCheck(t *testing.T) {
 	run.Assume("where a top-level declaration stands (file, position in the file) does not change a Go program, except for the initialisation order of independent package variables, which the layouts keep; _deploy(data any, isUpdate bool) is what the manifest must name _deploy with (Any, Boolean) -> Void, and its effect on package state is observed by running it in the same bare VM between _initialize and the called method (natively: a call of _deploy before the call)")
 	run.Assume("constructs that were found to deviate are kept out of the random programs and exercised by directed programs with their own signatures (see directed_test.go)")
 
-	nprog := ev.Pick(150, 4000)
+	nprog := ev.Pick(150, 12000)
 	tuples := 8
 	batchSz := ev.Pick(50, 100)
 	if s := os.Getenv("C14_PROGRAMS"); s != "" {
